@@ -83,6 +83,12 @@ def check_nfa_to_dfa_answer(N: NFA, answer: NFA):
             feedback.append('Error: the {}-transition from {} has the wrong target {}'.format(a, print_state_set(q_states), state(q1_states)))
             break
 
+    # check that there are no epsilon transitions
+    for (q, a), Q1 in answer.delta.items():
+        if a == answer.epsilon and Q1:
+            feedback.append('Error: the state {} has an outgoing epsilon transition'.format(q))
+            break
+
     # check if the states are deterministic and total
     for q, a in itertools.product(answer.Q, answer.Sigma):
             Q1 = answer.delta[q, a]
